@@ -9,7 +9,7 @@ import ast, collections, concurrent.futures, json, os, random, re, subprocess
 import vlib, pydiff
 import forms_c01
 
-THEOREMS = ["C01_expression_code_follows_pythons_rule", "C01_whole_expression", "C01_each_operand_once_in_order", "C01_assignment_code_follows_pythons_rule"]
+THEOREMS = ["C01_expression_code_follows_pythons_rule", "C01_whole_expression", "C01_each_operand_once_in_order", "C01_assignment_code_follows_pythons_rule", "C01_nary_form_code_follows_pythons_rule"]
 IMPL = os.path.join(vlib.GO, "bin", "impl")
 
 def opcodes():
@@ -134,6 +134,15 @@ class Conv:
             else: idx = self.e(s)
             return "(Prim2 %d %s %s)" % (self.oc["BINARY_SUBSCR"], self.e(n.value), idx)
         raise ValueError("unsupported " + ast.dump(n)[:80])
+    def nary(self, n):
+        """a top-level n-ary form (Model/ExprOrder.v compile_nary): (tag, [operands in emission order])"""
+        if isinstance(n, ast.Call) and not any(isinstance(a, ast.Starred) for a in n.args) and all(k.arg and re.fullmatch(r"k\d+", k.arg) for k in n.keywords):
+            ops = ["OExpr %s" % self.e(n.func)] + ["OExpr %s" % self.e(a) for a in n.args]
+            for k in n.keywords: ops += ["OConst %d" % (9000 + int(k.arg[1:])), "OExpr %s" % self.e(k.value)]
+            return (600 + len(n.keywords)) if n.keywords else 500, ops
+        if isinstance(n, (ast.Tuple, ast.List, ast.Set)):
+            return {ast.Tuple: 501, ast.List: 502, ast.Set: 504}[type(n)], ["OExpr %s" % self.e(x) for x in n.elts]
+        raise ValueError("not an n-ary form")
     def target(self, n):
         if isinstance(n, ast.Name): return "(TName %d)" % int(n.id[1:])
         if isinstance(n, ast.Attribute): return "(TAttr %s %d)" % (self.e(n.value), 400 + int(n.attr[1:]))
@@ -159,6 +168,7 @@ def ins_coq(ins):
     if k == "loadname": return "ILoadName %d" % ins[1]
     if k == "storename": return "IStoreName %d" % ins[1]
     if k == "storeattr": return "IStoreAttr %d" % ins[1]
+    if k == "const": return "IConst %d" % ins[1]
     return None
 
 COQ_HEADER = """From Coq Require Import List ZArith Arith Bool. Import ListNotations.
@@ -167,13 +177,14 @@ Definition ieq (a b : instr) : bool :=
   match a, b with
   | ILeaf x, ILeaf y | IJumpIfFalseOrPop x, IJumpIfFalseOrPop y | IJumpIfTrueOrPop x, IJumpIfTrueOrPop y | IPopJumpIfFalse x, IPopJumpIfFalse y
   | IJumpForward x, IJumpForward y | ILoadName x, ILoadName y | IStoreName x, IStoreName y | IStoreAttr x, IStoreAttr y => Nat.eqb x y
+  | IConst x, IConst y => Z.eqb x y
   | IPrim t n, IPrim t' n' => Nat.eqb t t' && Nat.eqb n n'
   | IDupTop, IDupTop | IRotTwo, IRotTwo | IRotThree, IRotThree | IPopTop, IPopTop | IDupTopTwo, IDupTopTwo | IStoreSubscr, IStoreSubscr => true
   | _, _ => false
   end.
 Fixpoint leq (a b : list instr) : bool := match a, b with [] , [] => true | x :: r, y :: s => ieq x y && leq r s | _, _ => false end.
-Inductive ccase := CE (e : expr) (o : list instr) | CS (s : stmt) (o : list instr).
-Definition agrees (c : ccase) : bool := match c with CE e o => leq (compile e) o | CS s o => leq (compile_stmt s) o end.
+Inductive ccase := CE (e : expr) (o : list instr) | CS (s : stmt) (o : list instr) | CN (tag : nat) (os : list operand) (o : list instr).
+Definition agrees (c : ccase) : bool := match c with CE e o => leq (compile e) o | CS s o => leq (compile_stmt s) o | CN t os o => leq (compile_nary t os) o end.
 Fixpoint bad (i : nat) (l : list ccase) : list nat := match l with [] => [] | c :: r => if agrees c then bad (S i) r else i :: bad (S i) r end.
 """
 
@@ -218,13 +229,23 @@ def check(res):
                 if o1 != "if" and o2 != "if": cases.append(("eval", "%st(1) %s %st(2) %s t(3)" % (u, o1, u if u != "not " or o1 in ("and", "or") else "", o2)))
     for _ in range(ns):
         g = Gen(rnd); cases.append(("exec", g.stmt(rnd.choice([0, 1, 1, 2])) + "\n"))
-    p = subprocess.run([IMPL, "c01"], input="".join(json.dumps(dict(src=s, mode=m)) + "\n" for m, s in cases), stdout=subprocess.PIPE, stderr=subprocess.DEVNULL, text=True, env=vlib.GOENV, timeout=1200)
+    # n-ary forms: calls with 0-5 positional and 0-4 keyword arguments, displays of 4-8 elements
+    for _ in range(ne // 5):
+        g = Gen(rnd); sub_ = lambda: g.paren(g.expr(rnd.choice([0, 1, 1, 2])), 1)
+        if rnd.random() < 0.6:
+            names = rnd.sample(range(1, 40), rnd.randint(0, 4))
+            args = [sub_() for _ in range(rnd.randint(0, 5))] + ["k%d=%s" % (k, sub_()) for k in names]
+            cases.append(("nary", "%s(%s)" % (g.paren(g.expr(rnd.choice([0, 1])), 15), ", ".join(args))))
+        else:
+            o, c = rnd.choice([("(", ")"), ("[", "]"), ("{", "}")])
+            cases.append(("nary", o + ", ".join(sub_() for _ in range(rnd.randint(4, 8))) + c))
+    p = subprocess.run([IMPL, "c01"], input="".join(json.dumps(dict(src=s, mode="eval" if m == "nary" else m)) + "\n" for m, s in cases), stdout=subprocess.PIPE, stderr=subprocess.DEVNULL, text=True, env=vlib.GOENV, timeout=1200)
     obs = p.stdout.splitlines()
     rows = []; rowsrc = []; skipped = collections.Counter(); tie_err = None; syn = []
     if len(obs) != len(cases): tie_err = "harness returned %d results for %d sources" % (len(obs), len(cases))
     else:
         for (mode, src), o in zip(cases, obs):
-            try: tree = ast.parse(src, mode=mode)
+            try: tree = ast.parse(src, mode="eval" if mode == "nary" else mode)
             except SyntaxError:
                 skipped["cpython-syntax-error"] += 1
                 if not o.startswith('{"error"'): syn.append((src, o[:100]))
@@ -233,13 +254,17 @@ def check(res):
             if isinstance(d, dict):
                 syn.append((src, d["error"])); continue
             try:
-                term = conv.e(tree.body) if mode == "eval" else conv.stmt(tree.body[0])
+                if mode == "nary":
+                    tg, ops = conv.nary(tree.body); term = "%d [%s]" % (tg, "; ".join(ops))
+                else:
+                    term = conv.e(tree.body) if mode == "eval" else conv.stmt(tree.body[0])
             except (ValueError, KeyError) as ex:
                 skipped["unsupported"] += 1; continue
             ins = [ins_coq(i) for i in d]
+            ck = {"eval": "CE", "exec": "CS", "nary": "CN"}[mode]
             if any(i is None for i in ins):
-                rows.append("(%s %s [ILeaf 999999])" % ("CE" if mode == "eval" else "CS", term))     # an opcode outside the vocabulary: cannot agree
-            else: rows.append("(%s %s [%s])" % ("CE" if mode == "eval" else "CS", term, "; ".join(ins)))
+                rows.append("(%s %s [ILeaf 999999])" % (ck, term))     # an opcode outside the vocabulary: cannot agree
+            else: rows.append("(%s %s [%s])" % (ck, term, "; ".join(ins)))
             rowsrc.append((mode, src, d))
     tie_bad = []
     if rows:
@@ -318,7 +343,7 @@ def check(res):
     res.coverage.update(evaluations=len(rows) + len(exprs) + len(stm), distinct_nontrivial=len(set(r for r in rows)), programs=len(progs_),
         rule="(T) seeded random expression trees of depth 1-4 over 12 binary and 4 unary operators, and/or with 2-3 operands, comparison chains of 1-3 operators out of 10, conditional expressions, tuples, lists, calls with 1-2 arguments, subscripts, 2- and 3-part slices, attributes; rendered with minimal parentheses by precedence plus random redundant ones; all ordered pairs of 19 operators (with and without unary prefixes) for precedence/associativity; assignment statements with 1-3 targets (name, subscript, attribute) and augmented assignments with 12 operators; the tree of every text is taken from CPython's parser; (oracle) well-typed expressions and statements over logging operands run in both interpreters; unpacking assignments with 1-5 targets, a starred target at every position, nesting to depth 2, tuple and list syntax, list/tuple/iterator right-hand sides of right and wrong length; %d fixed statement forms with logging operands (calls with keyword or star arguments, comprehensions, slices, slice assignment, del, with, defaults, decorators, class statements, loops with else, generators with send, try/finally, nonlocal/global augmented assignment)" % len(forms_c01.FORMS),
         samples=[dict(source=cases[7][1], code=obs[7] if len(obs) > 7 else None)], distribution=dict(sources=dict(kinds), compared=len(rows), skipped=dict(skipped), dynamic_expressions=len(exprs), dynamic_statements=len(stm)),
-        modelled_not_verified=["keyword/star arguments, lambda, comprehensions, dict/set displays, unpacking targets, raising operands: compared with CPython where generated, not in the model"])
+        modelled_not_verified=["star arguments, lambda, comprehensions, dict displays, unpacking targets, raising operands: compared with CPython where generated, not in the model"])
     if mism:
         e, l1, l2 = mism[0]
         res.violation("counterexample", "evaluation order or value differs from Python", dict(input=dict(source=e, prelude=PRELUDE), expected=l2, observed=l1, others=[dict(source=x[0], observed=x[1], expected=x[2]) for x in mism[1:6]], total=len(mism)))
